@@ -28,6 +28,12 @@ func (l *LQueue[T]) Enqueue(item T) {
 	defer l.mu.Unlock()
 
 	l.n++
+	if l.n == 1 {
+		// The list never gets empty: a drained or cleared queue
+		// still holds one node, which the first new item takes over.
+		l.list.Value = item
+		return
+	}
 	l.list.Append(item)
 }
 
@@ -51,6 +57,11 @@ func (l *LQueue[T]) Peek() T {
 	l.mu.RLock()
 	defer l.mu.RUnlock()
 
+	if l.n == 0 {
+		var item T
+		return item
+	}
+
 	return l.list.First()
 }
 
@@ -58,6 +69,10 @@ func (l *LQueue[T]) Peek() T {
 func (l *LQueue[T]) Search(item T) bool {
 	l.mu.Lock()
 	defer l.mu.Unlock()
+
+	if l.n == 0 {
+		return false
+	}
 
 	if _, ok := l.list.Find(item); ok {
 		return true
